@@ -702,12 +702,10 @@ impl<'a, 'b, R: FileManager> TypeModuleWalker<'a, R, AddressedQualifiedType>
                 anchor,
                 DiagnosticInfoMessage::CannotUseInterfaceInQualifiedTypePosition,
             ),
-            SymbolExport::ValueExpr { .. } => {
-                unreachable!("we use get_type which filters these out")
-            }
-            SymbolExport::ExprDecl { .. } => {
-                unreachable!("we use get_type which filters these out")
-            }
+            // (a default export made with `export { v as default }` is not filtered by kind)
+            SymbolExport::ValueExpr { .. } | SymbolExport::ExprDecl { .. } => self
+                .ctx
+                .error(anchor, DiagnosticInfoMessage::CannotUseValueInTypePosition),
         }
     }
 
@@ -1031,10 +1029,10 @@ impl<'a, 'b, R: FileManager> ValueModuleWalker<'a, R, AddressedQualifiedValue>
             SymbolExport::StarOfOtherFile { reference } => {
                 self.get_addressed_item_from_import_reference(reference.as_ref(), anchor)
             }
-            SymbolExport::TsType { .. } => unreachable!("we use get_value wich filters these out"),
-            SymbolExport::TsInterfaceDecl { .. } => {
-                unreachable!("we use get_value wich filters these out")
-            }
+            // (a default export made with `export { T as default }` is not filtered by kind)
+            SymbolExport::TsType { .. } | SymbolExport::TsInterfaceDecl { .. } => self
+                .ctx
+                .error(anchor, DiagnosticInfoMessage::CannotUseTypeInValuePosition),
             SymbolExport::TsEnumDecl {
                 decl,
                 original_file,
